@@ -669,3 +669,17 @@ PROPS["C19"]["statement_coverage"] += ("; persist steps inside the knowledge-ind
                                        "availability is characterised separately (orswot_encode_ok_iff / map_encode_fails_iff: it fails exactly with a pending remove, the known finding)")
 PROPS["C16"]["statement_coverage"] = PROPS["C16"]["statement_coverage"].replace("List (all states)", "List (all states, and at history level: list_reach_deliverable_ok / list_reach_gap)")
 PROPS["C17"]["statement_coverage"] += "; whole Map verdict symmetric for value types with a symmetric nested check (map_validateMerge_symmetric)"
+
+# persistence steps inside the system models (Props/SysPersist.lean): restart / ship state / ship op at ANY point of ANY run
+_SYS_P = ["Crdt.SysPersist." + t for t in ["OrswotP.runP_iff_run", "OrswotP.orswot_runP_iff_run_u64", "OrswotP.restart_is_identity", "OrswotP.runP_converge", "OrswotP.runP_member_iff",
+          "OrswotP.canRestart_iff", "OrswotP.run_canRestart_iff_no_pending", "OrswotP.runC_restart_available", "OrswotP.noncausal_restart_unavailable", "OrswotP.not_canRestart_error",
+          "MapP.runP_iff_run", "MapP.mvmap_runP_iff_run_u64", "MapP.nested_runP_iff_run_u64", "MapP.runP_key_present_iff", "MapP.mvmap_canRestart_iff", "MapP.runC_nested_canRestart_iff",
+          "MapP.nested_causal_restart_unavailable", "ListP.runP_iff_run", "ListP.list_runP_iff_run_u64", "ListP.runP_same_ops_same_sequence", "ListP.list_restart_available"]]
+PROPS["C19"]["lean_targets"] = PROPS["C19"]["lean_targets"] + ["CrdtModel.Props.SysPersist"]
+PROPS["C19"]["required_theorems"] = PROPS["C19"]["required_theorems"] + _SYS_P
+PROPS["C19"]["explanation"] += (" System level (Props/SysPersist.lean): the API-driven system models of Orswot, Map and List extended with persistence steps – restart (a replica replaced by its deserialised serialisation), ship "
+                                "(a peer merges the deserialised state), shipOp (the deserialised op is what is delivered) – at ANY point of ANY run reach exactly the configurations of the plain runs (runP_iff_run), a successful restart is the identity; "
+                                "AVAILABILITY: for Orswot a restart is possible iff the replica holds no pending remove, always under causal delivery (runC_restart_available), not in general (noncausal_restart_unavailable = the known finding); "
+                                "for Map<K,Orswot> even causal delivery does not suffice (nested_causal_restart_unavailable: a nested remove parked after a key reset – recorded as KF-C19-serde-json-nested-deferred-causal, replayed on the crate); "
+                                "for List always (list_restart_available).")
+PROPS["C19"]["statement_coverage"] += "; persistence inside the system models proved (runP_iff_run) with availability characterised exactly (canRestart_iff / runC_restart_available / counterexamples)"
